@@ -26,7 +26,9 @@ def run(check, tier):
     extra = 150 if tier == "quick" else 3000
     for i in range(extra):
         L = r.randint(3, 5 if tier == "quick" else 8)
-        runs = [dict(r.choice(kinds), method=r.choice(["collect_paths", "next_paths", "collect_by_line", "next_by_line"])) for _ in range(L)]
+        # a quarter of the runs leave no data.csv (fast_forward): a reference to such a run must not resolve to another run's data
+        runs = [dict(r.choice(kinds), method=r.choice(METHODS if r.random() < 0.5 else ["collect_paths", "next_paths", "collect_by_line", "next_by_line"]))
+                for _ in range(L)]
         cases.append({"runs": runs})
     # bursts: many runs of one group inside the same second (the `.N` suffix search has to keep going)
     nburst = 24 if tier == "quick" else 400
@@ -79,4 +81,5 @@ def run(check, tier):
                            "12:59:59->13:00, 23:59:59->00:00} (method drawn per run) plus random longer ones, with an injected clock; after every run the "
                            "whole archive tree is hashed and compared, directory names are compared with the model, and $group.results.<prefix>:last/:first "
                            "are resolved through the API; non-trivial = at least two runs")
-    check.assumptions.append("fast_forward methods leave no data.csv, so :last/:first references are exercised after collecting methods only")
+    check.assumptions.append("fast_forward methods leave no data.csv: a :last/:first reference to such a run may fail to resolve or name that run's "
+                             "(absent) data.csv, but must never resolve to another run's data")
